@@ -92,6 +92,7 @@ func parallel(n, workers int, f func(i int)) {
 func runInChildren(child string, n, workers, chunk int, mkJob func(lo, hi int) interface{}, em *emitter) {
 	type span struct{ lo, hi int }
 	var mu sync.Mutex
+	retried := map[int]bool{}
 	queue := []span{}
 	for lo := 0; lo < n; lo += chunk {
 		hi := lo + chunk
@@ -176,6 +177,20 @@ func runInChildren(child string, n, workers, chunk int, mkJob func(lo, hi int) i
 					}
 					// the child died while item `done` was running (or before it started it)
 					t := done
+					if hung {
+						// a wedge may be the machine (an overloaded sandbox), not the code: the item is run once more, alone
+						mu.Lock()
+						again := !retried[t]
+						retried[t] = true
+						mu.Unlock()
+						if again {
+							mu.Lock()
+							queue = append(queue, span{t + 1, sp.hi})
+							mu.Unlock()
+							sp = span{t, t + 1}
+							continue
+						}
+					}
 					if cur == nil {
 						cur = []obj{{"t": t, "e": "reset"}}
 					}
